@@ -97,6 +97,10 @@ def main():
         mod.setup(tier, seed)
     cases = mod.cases(tier, seed)
     mine = [c for i, c in enumerate(cases) if i % nshards == shard]
+    # interleave the workload classes (deterministically) so that a soft-deadline truncation thins every class evenly
+    import random as _random
+
+    _random.Random(seed * 1000003 + shard).shuffle(mine)
     out["planned"] = len(mine)
     events = Counter()
     by_class = {}
